@@ -54,7 +54,8 @@ TIERS = {
         closure_max=1500,
         costly_mod=30011,
         cc=dict(M=6, W=[65, MAXU1 + 1 - 6], depth=4, max_states=6000),
-        impl=dict(M=6, seqlen=1, ctor=2, maxT=2, demo_M=5),
+        cells=[('esc-sd', 4, 1500), ('esc-wic', 3, 150), ('esc-block', 4, 600)],
+        impl=dict(M=6, seqlen=1, ctor=2, maxT=2, demo_M=5, fidelity_max=60000),
         install_versions='tables',     # versions with their own category table + one fallback
         api_sample=4000,
     ),
@@ -66,6 +67,7 @@ TIERS = {
         closure_max=12000,
         costly_mod=2003,
         cc=dict(M=7, W=[1, 65, MAXU1 + 1 - 7], depth=6, max_states=40000),
+        cells=[('esc-sd', 6, 20000), ('esc-wic', 4, 1500), ('esc-block', 6, 8000)],
         impl=dict(M=7, seqlen=1, ctor=2, maxT=2, demo_M=6),
         install_versions='all',
         apalache_timeout=600,
@@ -80,6 +82,7 @@ TIERS = {
 class Win:
     """Window of the Unicode range: boundary 0 -> 0, b in 1..M-1 -> W+b-1, M -> 0x110000."""
     __slots__ = ('W', 'M', 'wide')
+    cell = False
 
     def __init__(self, W: int, M: int):
         assert W >= 1 and W + M - 2 <= MAXU1 - 1
@@ -104,6 +107,76 @@ class Win:
 
     def width(self, p: int) -> int:
         return self.R(p + 1) - self.R(p)
+
+
+class CellWin:
+    """Abstract points = CELLS of the partition of 0..0x10FFFF generated by a few named sets (the sets behind
+    \\s \\d \\w \\i \\c \\p{..}) and a few single characters.  Every named set and its complement is a union of
+    cells, so adding / discarding an escape is Update(T) / DiffUpdate(T) of spec/CodePointSet.tla for a set T of
+    cells.  Only used for CharacterClass (membership, len, iteration); cells are not intervals, so range
+    actions and raw lists are meaningless here."""
+    cell = True
+
+    def __init__(self, name: str, cells: list, texts: dict):
+        self.W = name
+        self.cells = cells                # [dict(ivs=[(a, b), ...], single=bool, label=str)]
+        self.M = len(cells)
+        self.wide = frozenset(i for i, c in enumerate(cells) if not c['single'])
+        self.texts = texts                # frozenset of cells -> [(kind, text)]
+
+    def R(self, p: int) -> int:
+        return self.cells[p]['ivs'][0][0]
+
+    def probes(self, p: int) -> list:
+        ivs = self.cells[p]['ivs']
+        return sorted({ivs[0][0], ivs[len(ivs) // 2][0], ivs[-1][1] - 1})
+
+    def width(self, p: int) -> int:
+        return sum(b - a for a, b in self.cells[p]['ivs'])
+
+    def ints(self, T) -> list:
+        return sorted(x for p in T for a, b in self.cells[p]['ivs'] for x in range(a, b))
+
+
+def build_cells(name: str, named: list, singles: list, extra_texts: list) -> tuple:
+    """named = [(key, raw list of the set, [(kind, text)] denoting it, [(kind, text)] denoting its complement)].
+    Returns (CellWin, {key: frozenset of cells})."""
+    sets = [(k, merged(raw)) for k, raw, _, _ in named]
+    pts = {0, MAXU1}
+    for _, iv in sets:
+        for a, b in iv:
+            pts.update((a, b))
+    for c in singles:
+        pts.update((c, c + 1))
+    E = sorted(pts)
+    ptr = [0] * len(sets)
+    by_sig: dict = {}
+    single_cells = {}
+    for a, b in zip(E, E[1:]):
+        sig = []
+        for j, (_, iv) in enumerate(sets):
+            while ptr[j] < len(iv) and iv[ptr[j]][1] <= a:
+                ptr[j] += 1
+            sig.append(ptr[j] < len(iv) and iv[ptr[j]][0] <= a)
+        sig = tuple(sig)
+        if b == a + 1 and a in singles:
+            single_cells[a] = sig
+        else:
+            by_sig.setdefault(sig, []).append((a, b))
+    cells = [dict(ivs=[(c, c + 1)], single=True, label=repr(chr(c)), sig=single_cells[c]) for c in sorted(single_cells)]
+    for sig, ivs in sorted(by_sig.items(), key=lambda kv: kv[1][0]):
+        cells.append(dict(ivs=ivs, single=False, sig=sig,
+                          label='&'.join(('' if v else '~') + k for (k, _), v in zip(sets, sig))))
+    members = {k: frozenset(i for i, c in enumerate(cells) if c['sig'][j]) for j, (k, _) in enumerate(sets)}
+    allc = frozenset(range(len(cells)))
+    texts: dict = {}
+    for k, _, pos_t, neg_t in named:
+        texts.setdefault(members[k], []).extend(pos_t)
+        texts.setdefault(allc - members[k], []).extend(neg_t)
+    idx = {c['ivs'][0][0]: i for i, c in enumerate(cells) if c['single']}
+    for chars in extra_texts:          # plain multi-character strings of single characters
+        texts.setdefault(frozenset(idx[ord(ch)] for ch in chars), []).append(('chars', chars))
+    return CellWin(name, cells, texts), members
 
 
 def stable_hash(*xs) -> int:
@@ -581,6 +654,21 @@ def cc_apply(US, CC, cc, win: Win, action: str, args: tuple, form: str):
     if action == 'Clear':
         cc.clear()
         return cc, None
+    if action in ('Update', 'DiffUpdate'):          # cell mode: an escape / category / plain string denoting T
+        text = form.split('|', 1)[1]
+        (cc.add if action == 'Update' else cc.discard)(text)
+        return cc, None
+    if action == 'Isub' and win.cell:
+        _, text, how = form.split('|')
+        o = CC(text)
+        if how == 'binop':
+            before = (list(cc.positive.codepoints), list(cc.negative.codepoints))
+            r = cc - o
+            if r is cc or (list(cc.positive.codepoints), list(cc.negative.codepoints)) != before:
+                return r, 'operand_modified'
+            return r, None
+        r = cc.__isub__(o)
+        return r, (None if r is cc else 'inplace_not_self')
     if action == 'Isub':
         oform, how = form.split('/')
         o = cc_other(US, CC, win, args[0], oform)
@@ -602,7 +690,21 @@ CC_FORMS = {'AddCp': ['int', 'chr'], 'DiscardCp': ['int', 'chr'], 'AddRange': ['
 
 
 def has_wide_piece(raw) -> bool:
-    return any((not isinstance(p, int)) and p[1] - p[0] > 64 for p in raw)
+    """the list holds so many code points that walking them one by one (len(), bool(), copy) is slow"""
+    return sum(1 if isinstance(p, int) else p[1] - p[0] for p in raw) > 4096
+
+
+def cc_forms(win, action: str, args: tuple) -> list:
+    if not win.cell:
+        return CC_FORMS.get(action, [])
+    if action in ('AddCp', 'DiscardCp', 'Complement', 'Clear'):
+        return CC_FORMS[action]
+    if action in ('Update', 'DiffUpdate'):
+        return [f'{kind}|{text}' for kind, text in win.texts.get(args[0], [])]
+    if action == 'Isub':
+        ts = win.texts.get(args[0], [])
+        return [f'{kind}|{text}|inplace' for kind, text in ts] + [f'{kind}|{text}|binop' for kind, text in ts[:1]]
+    return []
 
 
 def cc_observe(cc, win: Win, S2):
@@ -631,7 +733,7 @@ def cc_worker(job):
     W, units = job
     US, CC = _classes()
     gr = G['cc']
-    win = Win(W, gr['M'])
+    win = G['cc_wins'][W]
     states, out = gr['states'], gr['out']
     stats = dict(evaluations=0, transitions=0, nontrivial=0, skipped_form=0)
     fails: dict = {}
@@ -641,14 +743,16 @@ def cc_worker(job):
         S = states[sid][0]
         self_form = 'empty' if not pos and not neg else 'pos' if not neg else 'neg' if not pos else 'mixed'
         for ei, (dst, action, args) in enumerate(out[sid]):
-            if action not in CC_FORMS:
+            forms = cc_forms(win, action, args)
+            if not forms:
                 continue
             # bool(UnicodeSubset) is len(): every CharacterClass call on an object holding a block of a million
             # code points in `negative` costs about a second, so arguments stay inside the window (the outer
             # blocks still flip under Complement) and sources with a block in `negative` are not expanded
             if action in ('AddRange', 'DiscardRange') and (set(range(args[0], args[1])) & win.wide):
                 continue
-            if action == 'Isub' and (len(args[0] - win.wide) > 3 or (args[0] & win.wide and not win.wide <= args[0])):
+            if action == 'Isub' and not win.cell and \
+                    (len(args[0] - win.wide) > 3 or (args[0] & win.wide and not win.wide <= args[0])):
                 continue
             if has_wide_piece(neg) or (action == 'Complement' and has_wide_piece(pos) and
                                        stable_hash(pos, neg, W) % 61):
@@ -658,10 +762,12 @@ def cc_worker(job):
             stats['transitions'] += 1
             if S2 != S or action == 'Complement':
                 stats['nontrivial'] += 1
-            for form in CC_FORMS[action]:
+            for form in forms:
                 # CharacterClass.__copy__ / UnicodeSubset.__iand__ walk every single int of a block: cost guard
-                if (form.endswith('/binop') and (has_wide_piece(pos) or has_wide_piece(neg))) or \
-                        (form == 'neg/inplace' and has_wide_piece(pos)):
+                if (form.endswith('binop') and (has_wide_piece(pos) or has_wide_piece(neg))) or \
+                        (form == 'neg/inplace' and has_wide_piece(pos)) or \
+                        (win.cell and action in ('DiffUpdate', 'Isub') and form[:3] in ('ESC', 'CAT')
+                         and has_wide_piece(pos) and stable_hash(pos, neg, form) % 61):
                     stats['skipped_costly'] = stats.get('skipped_costly', 0) + 1
                     continue
                 try:
@@ -677,19 +783,25 @@ def cc_worker(job):
                     kind = 'exception:' + type(e).__name__
                     obs = dict(kind=kind, error=repr(e)[:200])
                 if kind is None:
-                    if '/binop' not in form:
+                    if not form.endswith('binop'):
                         new_states.add((tuple(r.positive.codepoints), tuple(r.negative.codepoints), dst))
                     if len(samples) < 2 and action == 'Complement' and S:
                         samples.append(dict(impl='CharacterClass', positive=list(pos), negative=list(neg),
                                             op=action, args=core.jsonable(args), form=form, window_offset=W,
                                             expected_members_in_window=win.ints(S2 - win.wide)))
                     continue
-                feat = dict(impl='CharacterClass', op=action, form=form, kind=kind, self_form=self_form,
+                fform = form
+                if '|' in form:          # cell mode: the class of the argument text, not the text itself
+                    parts = form.split('|')
+                    fform = parts[0] + ('/' + parts[2] if len(parts) > 2 else '')
+                feat = dict(impl='CharacterClass', op=action, form=fform, kind=kind, self_form=self_form,
                             arg_in_set=('-' if action not in ('AddCp', 'DiscardCp') else args[0] in S))
                 _record(fails, feat,
                         dict(impl='CharacterClass', W=W, M=win.M, positive=list(pos), negative=list(neg),
                              S=sorted(S), action=action, args=core.jsonable(args), form=form, S2=sorted(S2)),
-                        dict(members_in_window=win.ints(S2 - win.wide), outside=sorted(S2 & win.wide)), obs)
+                        dict(members_in_window=win.ints(S2 - win.wide),
+                             outside=[win.cells[p]['label'] for p in sorted(S2 & win.wide)] if win.cell
+                             else sorted(S2 & win.wide)), obs)
     return stats, list(fails.values()), list(new_states), samples
 
 
@@ -885,37 +997,92 @@ def run_cc(chk: core.Check, conf: dict) -> None:
         gr = load_abstract(dot, M)
         os.remove(dot)
         G['cc'] = gr
-        t0 = time.time()
-        for W in windows:
-            seen = {((), (), gr['init'])}
-            frontier = [((), (), gr['init'])]
-            depth = 0
-            n_states = 0
-            tot = dict(transitions=0, evaluations=0)
-            while frontier and depth < conf['depth'] and n_states < conf['max_states']:
-                depth += 1
-                n_states += len(frontier)
-                jobs = [(W, ch) for ch in core.chunked(sorted(frontier, key=repr), 32)]
-                frontier = []
-                for stats, fails, new_states, samples in core.pool_map(cc_worker, jobs):
-                    add_stats(chk, stats, 'cc_')
-                    tot['transitions'] += stats['transitions']
-                    tot['evaluations'] += stats['evaluations']
-                    report(chk, fails)
-                    for s in samples:
-                        chk.sample(s, cap=10)
-                    for ns in new_states:
-                        if ns not in seen:
-                            seen.add(ns)
-                            frontier.append(ns)
-                print(f'    cc W={W:#x} level {depth}: states so far={n_states} next frontier={len(frontier)} '
-                      f't={time.time() - t0:.1f}s', flush=True)
-            chk.add('characterclass_real_states_explored', n_states)
-            if frontier:
-                chk.coverage.setdefault('characterclass_closure_truncated', []).append(
-                    dict(window=W, depth=depth, frontier=len(frontier)))
-            print(f'  {name} W={W:#x}: real states={n_states} depth={depth} transitions={tot["transitions"]} '
-                  f'evaluations={tot["evaluations"]} t={time.time() - t0:.1f}s', flush=True)
+        G['cc_wins'] = {W: Win(W, M) for W in windows}
+        cc_closure(chk, name, gr, windows, conf['depth'], conf['max_states'])
+
+
+def cc_closure(chk: core.Check, name: str, gr: dict, keys: list, max_depth: int, max_states: int) -> None:
+    """breadth-first closure over the REAL (positive, negative) states reached through steps that agreed with TLC"""
+    t0 = time.time()
+    for W in keys:
+        label = f'{W:#x}' if isinstance(W, int) else W
+        seen = {((), (), gr['init'])}
+        frontier = [((), (), gr['init'])]
+        depth = 0
+        n_states = 0
+        tot = dict(transitions=0, evaluations=0)
+        while frontier and depth < max_depth and n_states < max_states:
+            depth += 1
+            frontier = sorted(frontier, key=repr)[:max(0, max_states - n_states)]
+            n_states += len(frontier)
+            jobs = [(W, ch) for ch in core.chunked(frontier, 32)]
+            frontier = []
+            for stats, fails, new_states, samples in core.pool_map(cc_worker, jobs):
+                add_stats(chk, stats, 'cc_')
+                tot['transitions'] += stats['transitions']
+                tot['evaluations'] += stats['evaluations']
+                report(chk, fails)
+                for s in samples:
+                    chk.sample(s, cap=10)
+                for ns in new_states:
+                    if ns not in seen:
+                        seen.add(ns)
+                        frontier.append(ns)
+        chk.add('characterclass_real_states_explored', n_states)
+        if frontier:
+            chk.coverage.setdefault('characterclass_closure_truncated', []).append(
+                dict(window=label, depth=depth, frontier=len(frontier)))
+        print(f'  {name} W={label}: real states={n_states} depth={depth} transitions={tot["transitions"]} '
+              f'evaluations={tot["evaluations"]} t={time.time() - t0:.1f}s', flush=True)
+
+
+# the named sets behind the multi-character escapes and \\p{..}: (config, [(key, escape or category name)], single
+# characters, plain strings).  The sets themselves are taken from the working tree as ARGUMENT VALUES (what \\d denotes
+# is property C12's business); what adding / discarding them does to a class is judged by the TLC graph.
+CELL_CONFIGS = {
+    'esc-sd': dict(named=[('s', '\\s'), ('d', '\\d'), ('Sc', 'Sc')], singles='0x $', strings=['0x', 'x$']),
+    'esc-wic': dict(named=[('w', '\\w'), ('i', '\\i'), ('c', '\\c')], singles='a-', strings=['a-']),
+    'esc-block': dict(named=[('BL', 'IsBasicLatin'), ('d', '\\d')], singles='0\u00e9', strings=['0\u00e9']),
+}
+
+
+def run_cc_cells(chk: core.Check, conf: dict) -> None:
+    from elementpath.regex import unicode_subset
+    try:
+        from elementpath.regex.character_classes import CHARACTER_ESCAPES
+    except ImportError:
+        chk.note('elementpath.regex.character_classes.CHARACTER_ESCAPES not found: escape arguments of CharacterClass skipped')
+        return
+    for cname, depth, cap in conf['cells']:
+        cc_conf = CELL_CONFIGS[cname]
+        named = []
+        for key, ref in cc_conf['named']:
+            if ref.startswith('\\'):
+                raw = list(CHARACTER_ESCAPES[ref]().codepoints)
+                pos_t, neg_t = [('esc', ref)], [('ESC', ref.upper())]
+                if ref == '\\d':
+                    pos_t.append(('cat', '\\p{Nd}'))
+                    neg_t.append(('CAT', '\\P{Nd}'))
+            else:
+                raw = list(unicode_subset(ref).codepoints)
+                pos_t, neg_t = [('cat', '\\p{%s}' % ref)], [('CAT', '\\P{%s}' % ref)]
+            named.append((key, raw, pos_t, neg_t))
+        win, members = build_cells(cname, named, [ord(c) for c in cc_conf['singles']], cc_conf['strings'])
+        M = win.M
+        name = f'cc-{cname}'
+        wd = os.path.join(chk.scratch, name)
+        dot = os.path.join(wd, 'graph.dot')
+        cfg = tla.cfg_text(dict(M=M, Wide=set(win.wide), Others=set(win.texts), CtorLen=0), invariants=['TypeOK', 'Laws'])
+        r = tla.require_ok(tla.run_tlc('CodePointSet', cfg, wd, dump_dot=dot, workers=8), f'CodePointSet/{name}')
+        chk.model(f'CodePointSet/{name}', r)
+        gr = load_abstract(dot, M)
+        os.remove(dot)
+        G['cc'] = gr
+        G['cc_wins'] = {cname: win}
+        chk.coverage.setdefault('characterclass_cell_configs', []).append(dict(
+            name=cname, cells=[dict(label=c['label'], code_points=win.width(i)) for i, c in enumerate(win.cells)],
+            argument_texts=sorted(t for ts in win.texts.values() for _, t in ts)))
+        cc_closure(chk, name, gr, [cname], depth, cap)
 
 
 # ---------------------------------------------------------------------------------------------
@@ -1020,9 +1187,9 @@ def run_impl(chk: core.Check, conf: dict) -> None:
     for variant, gr in graphs.items():
         G['impl'] = gr
         edges = gr['edges']
-        if len(edges) > 400000:
+        if len(edges) > conf.get('fidelity_max', 400000):
             rnd = random.Random(chk.seed)
-            edges = rnd.sample(edges, 400000)
+            edges = rnd.sample(edges, conf.get('fidelity_max', 400000))
         jobs = [(W, ch) for W in (65, MAXU1 - M) for ch in core.chunked(edges, 16)]
         m = n = cm = cn = 0
         diffs = []
@@ -1501,6 +1668,7 @@ def run(chk: core.Check) -> None:
     for ac in conf['abstract']:
         run_abstract(chk, ac, conf['closure_depth'], ac.get('closure_max', conf['closure_max']))
     run_cc(chk, conf['cc'])
+    run_cc_cells(chk, conf)
     run_impl(chk, conf['impl'])
     run_tables(chk, conf)
     if conf.get('apalache_timeout'):
